@@ -206,7 +206,11 @@ def judge_run(res: Result, case: Dict[str, Any], col, rec, residue: int, rate, w
         hit = next((j for j in cands if facts(done[j]) == lf), None)
         if hit is None:
             r = done[cands[0]]
-            sig = "sampled-on-resumption" if any(done[j].resumes > 0 for j in cands) else "shape:" + case["program"]
+            # the known defect needs a sampling rate and a draw sequence that skips before it samples; anything else
+            # (rate None/1, or every draw sampling) is a different failure even if the frame was resumed
+            ans = case.get("answers") if isinstance(case.get("answers"), list) else []
+            skipped_then_sampled = bool(case.get("rate") and case["rate"] >= 2 and any(a != 0 for a in ans[: max(0, len(ans) - 1)]) and any(a == 0 for a in ans[1:]))
+            sig = "sampled-on-resumption" if (skipped_then_sampled and any(done[j].resumes > 0 for j in cands)) else "shape:" + case["program"]
             ef = facts(r)
             kind = "arg-types" if ef[0] != lf[0] else ("yield-type" if ef[1] != lf[1] else "return-type")
             res.violate(Violation(ID, kind, sig, case, f"{where}: {r.code.co_qualname}: logged (args, yield, return) = {lf} describes no completed call of it; the calls were {[facts(done[j]) for j in cands]}"))
